@@ -294,16 +294,12 @@ class MessageModel:
 
     def __init__(self, P, fi, fl, root: str):
         self.P, self.fi, self.fl, self.root = P, fi, fl, root
-        self.hi_forms = (f"{root}['tbsData'].get('headerInfo', {{}})", f"{root}['tbsData']['headerInfo']")
 
     def is_hi(self, e) -> bool:
-        return any(sem.same(e, f) for f in self.hi_forms)
+        return SU.is_header_info(e, self.root)
 
     def is_psid(self, e) -> bool:
-        if isinstance(e, ast.Subscript) and isinstance(e.slice, ast.Constant) and e.slice.value == "psid":
-            return self.is_hi(e.value)
-        return isinstance(e, ast.Call) and isinstance(e.func, ast.Attribute) and e.func.attr == "get" and e.args and \
-            isinstance(e.args[0], ast.Constant) and e.args[0].value == "psid" and self.is_hi(e.func.value)
+        return SU.header_field(e, self.root) == "psid"
 
     def is_kind(self, e) -> bool:
         return sem.same(e, f"{self.root}['signer'][0]")
@@ -374,7 +370,7 @@ def verifier_vs_signers(ctx, emitted):
     fl = ctx.flows.get(vf)
     if len(vf.params) < 2:
         raise AnalysisError("C05: VerifyService.verify lost its request parameter")
-    root = f"SECURITY_CODER.decode_etsi_ts_103097_data_signed({vf.params[1]}.message)['content'][1]"
+    root = SU.signed_root(vf.params[1])
     mm = MessageModel(P, vf, fl, root)
     exits = []     # (report, index among same report, return stmt, deciding (node, pol), facts, loop bindings)
     seen = {}
@@ -537,8 +533,9 @@ def inclusion_state(ctx):
 
 
 def xatoms(fl, node) -> set:
-    """Canonical guard atoms in force where `node` is evaluated, over the EXPANDED conditions only."""
-    out = set()
+    """Canonical guard atoms in force where `node` is evaluated, over the EXPANDED conditions only; the tests of the
+    enclosing ifs are always included (a guard the flow forgot after a store / container mutation still counts)."""
+    out = SU.branch_atoms(fl, node)
     for f in fl.state_at(node).facts:
         if f.kind == "cond":
             out.update(sem.atoms(f.xnode, f.pol))
@@ -651,7 +648,7 @@ def p2pcd(ctx):
     fl = ctx.flows.get(vf)
     if len(vf.params) < 2:
         raise AnalysisError("C05: VerifyService.verify lost its request parameter")
-    root = f"SECURITY_CODER.decode_etsi_ts_103097_data_signed({vf.params[1]}.message)['content'][1]"
+    root = SU.signed_root(vf.params[1])
 
     def digest_arg(x):
         ok = sem.same(x, f"{root}['signer'][1]")
@@ -707,9 +704,11 @@ def p2pcd(ctx):
     if len(nu.params) < 2:
         raise AnalysisError("C05: notify_unknown_at lost its digest parameter")
     h3 = f"{nu.params[1]}[-3:]"
-    sched = any(isinstance(n, ast.Assign) and len(n.targets) == 1 and sem.same(n.targets[0], flag)
-                and P.try_fold(nu.module, n.value, default="<nc>") is True and not xatoms(fl, n) and SU.only_if_ancestors(fl, n) is not None
-                for n in ast.walk(nu.node))
+    # must-store: at every normal exit the flag's reaching definitions exist on all paths and are all `True`
+    normal = [st for k, s_, st in fl.exits if k in ("return", "fall")]
+    sched = bool(normal) and all(fl.reaching(flag, st) and all(d.kind == "assign" and d.value is not None and
+                                                                 P.try_fold(nu.module, d.value, default="<nc>") is True
+                                                                 for d in fl.reaching(flag, st)) for st in normal)
     queued = False
     for c in P.calls_in(nu):
         if isinstance(c.func, ast.Attribute) and c.func.attr == "append" and sem.same(c.func.value, "self.unknown_ats") and len(c.args) == 1:
